@@ -137,10 +137,8 @@ class World:
 
     # ------------------------------------------------------------------ server
     def _make_main(self):
-        m = qs.qserve.Main.__new__(qs.qserve.Main)
-        m.port, m.interface, m.data_dir, m.allowed_ips = 0, "", self.datadir, set()
-        m.loaddb()
-        return m
+        # the server's own constructor (it loads the saved queue); nothing of Main is rebuilt by hand here
+        return qs.qserve.Main(0, "", self.datadir, set())
 
     @property
     def wq(self):
@@ -260,10 +258,7 @@ class World:
             self.hub.shutdown([c.greenlet for c in self.conns.values() if c.greenlet is not None])
             self.trace = saved
             self.hub = chub.fresh_hub()
-            m = qs.qserve.Main.__new__(qs.qserve.Main)
-            m.port, m.interface, m.data_dir, m.allowed_ips = 0, "", d, set()
-            m.loaddb()
-            self.main = m
+            self.main = qs.qserve.Main(0, "", d, set())
         finally:
             shutil.rmtree(d, ignore_errors=True)
         self.generation += 1
